@@ -57,7 +57,7 @@ def parse_cardinality(val):
         min_int = min_val.isdigit() and int(min_val) >= 0
         max_int = max_val.isdigit() and int(max_val) >= 0
 
-        if min_int and max_int and int(max_val) > int(min_val):
+        if min_int and max_int and int(max_val) >= int(min_val):
             return int(min_val), int(max_val)
 
         if min_int and max_val == "None":
